@@ -521,6 +521,17 @@ func StructFieldsAsArgumentsAction(explicitFields ...string) RewriteAction {
 			newOpt.Assignments = append(newOpt.Assignments, oldAssignments[1:]...)
 		}
 
+		// the arguments are named after the fields: a field can have the name of an argument the
+		// option already has (`Outer{inner: Inner{name}, name}` unfolded twice). Two arguments
+		// can't share a name: the option is left as it is.
+		argumentNames := make(map[string]struct{}, len(newOpt.Args))
+		for _, arg := range newOpt.Args {
+			if _, taken := argumentNames[arg.Name]; taken {
+				return []ast.Option{option}
+			}
+			argumentNames[arg.Name] = struct{}{}
+		}
+
 		return []ast.Option{newOpt}
 	}
 }
